@@ -7,7 +7,7 @@ from . import common
 PROP = "C04"
 LEVEL = "model_checking"
 RULE = (
-    "X-ENUM over REG (k = 1..20 simultaneously live values x 11 lifetime shapes), FUNC, FUNC2, FUNC3 (call depth 4), LIB (library module-level registers), LIST, DEV and a CTRL sub-family under the four "
+    "X-ENUM over REG (k = 1..20 simultaneously live values x 11 lifetime shapes), FUNC, FUNC2, FUNC3 (call depth 4), FORFN (for-range start / bound / step in parameters and locals x 6 loop bodies), LIB (library module-level registers), LIST, DEV and a CTRL sub-family under the four "
     "calling-convention vectors (inline x push/pop); X-RUN executes every distinct emitted program for every device answer sequence "
     "with the TAGS monitor attached: every register read through an operand that was virtual register v before allocation must find "
     "the value last written through v (shadow tags per physical register), plus equal traces from zeroed and poisoned registers and "
@@ -33,6 +33,9 @@ def build_cases(tier):
             cases.append(dict(cc, static=["regs"]))
     for c in F.func3(tier):
         cases.append(dict(c, variants=CONV, static=["regs"]))
+    # for-range loops in functions: start / bound / step held in parameters or locals must stay live around the loop
+    for c in F.forfn(tier):
+        cases.append(dict(c, variants=[{}, {"inline_functions": False}], static=["regs"], K=10))
     # multi-module programs: library module-level values live in registers across every call
     for c in F.lib(tier)[:: (2 if tier == "quick" else 1)]:
         for cc in common.split_lib_case(c, CONV):
